@@ -31,63 +31,65 @@ Theorem C17_refinement_startkey_refuted : exists neighbour L reg o o',
 Proof. exact refine_startkey_refuted_proof. Qed.
 Print Assumptions C17_refinement_startkey_refuted.
 
-(* ---- filter_results (cluster_prediction.py): the best hit of a group of overlapping hits of competing profiles is
-   searched starting from `list(group)[0]` of a SET of identity-hashed HSP objects.  A memory layout is a rank
-   assignment rho (C13.Model: f_rank).  With pairwise distinct bitscores the kept hits are the same for all layouts
-   (and filter_results does not raise) ... *)
+(* ---- filter_results (cluster_prediction.py): the groups of overlapping hits of competing profiles are SETS of
+   identity-hashed HSP objects.  A memory layout is a rank assignment rho (C13.Model: f_rank).  Since the repair of
+   filter_results_score_tie_set_order the best hit of a group is searched in the order of the gene's hit list (the first of
+   the highest scoring hits is kept: C13_filter_results_tie_rule), so for EVERY input of the domain (hit_start < hit_end,
+   distinct objects), bitscore ties included, the kept hits are the same for all layouts, and filter_results does not raise *)
 Theorem C17_filter_results_layout_perm : forall eqg results mine rho rho',
-  C13.Model.fwf mine = true -> C13.Model.distinct_scores mine = true ->
+  C13.Model.fwf mine = true ->
   filter_gene_o rho eqg results mine = filter_gene_o rho' eqg results mine /\
   exists r m, filter_gene_o rho eqg results mine = Ok (r, m).
 Proof. exact filter_gene_layout_proof. Qed.
 Print Assumptions C17_filter_results_layout_perm.
 
-(* ... with a tie on the bitscore they follow the layout (finding filter_results_score_tie_set_order) *)
-Theorem C17_filter_results_tie_refuted : exists eqg results mine rho rho',
-  C13.Model.fwf mine = true /\ NoDup (map C13.Model.f_id mine) /\
-  filter_gene_o rho eqg results mine <> filter_gene_o rho' eqg results mine.
-Proof. exact filter_gene_tie_refuted_proof. Qed.
-Print Assumptions C17_filter_results_tie_refuted.
+(* the former witness (two overlapping competing hits with equal bitscore): the code before the repair
+   (`best = list(group)[0]`) kept the hit the layout put first; now the hit listed first in the gene's hit list is kept
+   under both layouts (repaired finding filter_results_score_tie_set_order) *)
+Theorem C17_filter_results_tie_witness :
+  C13.Model.fwf [w_f1; w_f2] = true /\ NoDup (map C13.Model.f_id [w_f1; w_f2]) /\
+  filter_gene_unrepaired (fun i => i) [0; 1] [w_f1; w_f2] [w_f1; w_f2]
+    <> filter_gene_unrepaired (fun i => 1 - i) [0; 1] [w_f1; w_f2] [w_f1; w_f2] /\
+  filter_gene_o (fun i => i) [0; 1] [w_f1; w_f2] [w_f1; w_f2] = Ok ([0], [0]) /\
+  filter_gene_o (fun i => 1 - i) [0; 1] [w_f1; w_f2] [w_f1; w_f2] = Ok ([0], [0]) /\
+  filter_gene_o (fun i => i) [0; 1] [w_f2; w_f1] [w_f2; w_f1] = Ok ([1], [1]).
+Proof. exact filter_gene_tie_witness_proof. Qed.
+Print Assumptions C17_filter_results_tie_witness.
 
-(* ---- CDSResults.annotate: the CORE gene functions of a gene are added in the iteration order of the Set[str] of
-   definition domains: two enumerations of the same sets give different gene_functions lists (finding
-   annotate_definition_domains_set_order); iterating `sorted(matching_domains)` (proposed repair) does not ... *)
-Theorem C17_annotate_order_refuted : exists defs defs',
-  Forall2 (fun d d' => fst d = fst d' /\ forall x, In x (snd d) <-> In x (snd d')) defs defs' /\
-  annotate_core defs <> annotate_core defs' /\ annotate_core_sorted defs = annotate_core_sorted defs'.
-Proof. exact annotate_refuted_proof. Qed.
-Print Assumptions C17_annotate_order_refuted.
-
-(* ... for any input ... *)
-Theorem C17_annotate_sorted_repair_perm : forall defs defs',
+(* ---- CDSResults.annotate: the CORE gene functions of a gene are added in the order of
+   `sorted(matching_domains)` (repair of annotate_definition_domains_set_order): they depend on the SETS of definition
+   domains only, for any input ... *)
+Theorem C17_annotate_perm : forall defs defs',
   Forall2 (fun d d' => fst d = fst d' /\ forall x, In x (snd d) <-> In x (snd d')) defs defs' ->
-  annotate_core_sorted defs = annotate_core_sorted defs'.
-Proof. exact annotate_sorted_proof. Qed.
-Print Assumptions C17_annotate_sorted_repair_perm.
-
-(* ... and the code as it is gives one result when no cluster type has two definition domains on the gene *)
-Theorem C17_annotate_single_domain_perm : forall defs defs',
-  Forall2 (fun d d' => fst d = fst d' /\ forall x, In x (snd d) <-> In x (snd d')) defs defs' ->
-  Forall (fun d => forall x y, In x (snd d) -> In y (snd d) -> x = y) defs ->
   annotate_core defs = annotate_core defs'.
-Proof. exact annotate_single_proof. Qed.
-Print Assumptions C17_annotate_single_domain_perm.
+Proof. exact annotate_perm_proof. Qed.
+Print Assumptions C17_annotate_perm.
 
-(* ---- terpene filter_incomplete: gather_by_query sets sorted by query_start ONLY, then remove_incomplete.  Same
-   result for every enumeration unless two different hits of one gene start at the same position ... *)
+(* ... the former witness: the loop over the Set[str] itself (the code before the repair) gave two gene_functions
+   lists for two enumerations of the same set; the repaired code gives one *)
+Theorem C17_annotate_witness :
+  let defs := [([114], [[97]; [98]])] in let defs' := [([114], [[98]; [97]])] in
+  Forall2 (fun d d' => fst d = fst d' /\ forall x, In x (snd d) <-> In x (snd d')) defs defs' /\
+  annotate_core_unrepaired defs <> annotate_core_unrepaired defs' /\
+  annotate_core defs = [([97], [114]); ([98], [114])] /\ annotate_core defs' = [([97], [114]); ([98], [114])].
+Proof. exact annotate_witness_proof. Qed.
+Print Assumptions C17_annotate_witness.
+
+(* ---- terpene filter_incomplete: gather_by_query sets sorted by the total key of refine_hmmscan_results (repair of
+   terpene_start_tie_set_order), then remove_incomplete: same result for every enumeration, no guard ... *)
 Theorem C17_terpene_filter_perm : forall t o o', Permutation o o' ->
-  (forall g a b, In (g, a) o -> In (g, b) o -> C13.Model.st a = C13.Model.st b -> a = b) ->
   terpene_filter_o t o = terpene_filter_o t o'.
 Proof. exact terpene_filter_perm_proof. Qed.
 Print Assumptions C17_terpene_filter_perm.
 
-(* ... in which case the result follows the enumeration (finding terpene_start_tie_set_order); the total key of
-   refine_hmmscan_results gives one result on the same input *)
-Theorem C17_terpene_filter_startkey_refuted : exists t o o',
-  Permutation o o' /\ NoDup o /\ terpene_filter_o t o <> terpene_filter_o t o' /\
-  refine_o true t o = refine_o true t o'.
-Proof. exact terpene_filter_refuted_proof. Qed.
-Print Assumptions C17_terpene_filter_startkey_refuted.
+(* ... the former witness: with the start-only key of the code before the repair two complete hits of different profiles
+   starting at the same position came out in enumeration order; now both enumerations give [w_t1; w_t2] *)
+Theorem C17_terpene_filter_witness :
+  let t := [(1, 30, 0); (1, 50, 0)] in let o := [(0, w_t1); (0, w_t2)] in let o' := [(0, w_t2); (0, w_t1)] in
+  Permutation o o' /\ NoDup o /\ terpene_filter_startkey t o <> terpene_filter_startkey t o' /\
+  terpene_filter_o t o = Ok [(0, [w_t1; w_t2])] /\ terpene_filter_o t o' = Ok [(0, [w_t1; w_t2])].
+Proof. exact terpene_filter_witness_proof. Qed.
+Print Assumptions C17_terpene_filter_witness.
 
 (* ---- find_protoclusters: `sorted(record.get_cds_by_name(cds) for cds in cds_names)`.
    The sorted list of FEATURES does depend on the set order when two anchoring genes have equal
@@ -229,22 +231,25 @@ Theorem C17_hybrid_scan_is_containment : forall h l, wsorted C05.Model.core_star
 Proof. exact scan_is_filter. Qed.
 Print Assumptions C17_hybrid_scan_is_containment.
 
-(* ---- Region.get_unique_protoclusters, origin-crossing branch (key includes the product): same
-   list for every set order unless two protoclusters share (start, length, product) ... *)
+(* ---- Region.get_unique_protoclusters, origin-crossing branch (key (shifted start, -length, product, core start, core end)
+   since the repair of unique_crossing_same_product_set_order): same list for every set order unless two protoclusters share
+   coordinates AND product AND core (indistinguishable protoclusters; same guard as the other branch) ... *)
 Theorem C17_unique_crossing_perm : forall N o o', Permutation o o' ->
-  (forall a b, In a o -> In b o -> red_key N a = red_key N b -> a = b) ->
+  (forall a b, In a o -> In b o -> red_key5 N a = red_key5 N b -> a = b) ->
   unique_crossing N o = unique_crossing N o'.
 Proof. exact unique_crossing_perm_proof. Qed.
 Print Assumptions C17_unique_crossing_perm.
 
-(* ... the guard is needed: same shifted start, length AND product, different cores - the two set orders give two
-   different lists (finding unique_crossing_same_product_set_order; the other branch separates them by the core) *)
-Theorem C17_unique_crossing_same_product_refuted : exists N o o',
-  Permutation o o' /\ NoDup (map uid o) /\
-  (forall a b, In a o -> In b o -> (ucs a, uce a) = (ucs b, uce b) -> a = b) /\
-  map uid (unique_crossing N o) <> map uid (unique_crossing N o').
-Proof. exact unique_crossing_refuted_proof. Qed.
-Print Assumptions C17_unique_crossing_same_product_refuted.
+(* ... the former witness (same shifted start, length AND product, different cores): the guard holds, both set orders
+   give [1; 0]; the key of the code before the repair (without the cores) followed the set order *)
+Theorem C17_unique_crossing_witness :
+  let a := mkU 0 900 100 200 0 950 980 in let b := mkU 1 900 100 200 0 20 60 in
+  Permutation [a; b] [b; a] /\ NoDup (map uid [a; b]) /\
+  (forall x y, In x [a; b] -> In y [a; b] -> red_key5 1000 x = red_key5 1000 y -> x = y) /\
+  map uid (unique_crossing_unrepaired 1000 [a; b]) <> map uid (unique_crossing_unrepaired 1000 [b; a]) /\
+  map uid (unique_crossing 1000 [a; b]) = [1; 0] /\ map uid (unique_crossing 1000 [b; a]) = [1; 0].
+Proof. exact unique_crossing_witness_proof. Qed.
+Print Assumptions C17_unique_crossing_witness.
 
 (* ... and always in the documented order (shifted start, decreasing size, product) *)
 Theorem C17_unique_crossing_documented_order : forall N o, doc_sorted true N (unique_crossing N o) = true.
@@ -289,7 +294,10 @@ Theorem C17_sorted_set_spec : forall o,
 Proof. exact sorted_set_spec_proof. Qed.
 Print Assumptions C17_sorted_set_spec.
 
-(* `list(a_set)` (the code before 9d58b7b1 / 4a88672f) is the enumeration order itself *)
+(* `list(a_set)` / `tuple(a_set)` (the code before 9d58b7b1 / 4a88672f, and before the repairs of
+   html_product_categories_set_order (js.py product_categories), terpene_subtypes_set_order (subtypes) and
+   terpene_reaction_intersection_set_order (substrates / products of a merged reaction), all of which are `sorted(...)` of
+   the set now) is the enumeration order itself; sorted_set is not *)
 Theorem C17_list_of_set_refuted : exists o o',
   (forall x, In x o <-> In x o') /\ list_of_set o <> list_of_set o' /\ sorted_set o = sorted_set o'.
 Proof. exact list_of_set_refuted_proof. Qed.
@@ -312,7 +320,7 @@ Theorem C17_pipeline_partial : forall neighbour table N c nb crossing RN w
   Permutation protos protos' -> (forall x, In x names <-> In x names') -> Permutation notes notes' ->
   Forall simple P -> NoDup (map C05.Model.pid P) -> tie_guard P ->
   tie_neutral P en -> tie_neutral P en' -> linear_or_neutral P w en -> linear_or_neutral P w en' ->
-  (crossing = true -> forall a b, In a protos -> In b protos -> red_key RN a = red_key RN b -> a = b) ->
+  (crossing = true -> forall a b, In a protos -> In b protos -> red_key5 RN a = red_key5 RN b -> a = b) ->
   (crossing = false -> Forall wf_u protos /\
                        forall a b, In a protos -> In b protos -> lin_key a = lin_key b -> upre_key a = upre_key b -> a = b) ->
   refine_o neighbour table hits = refine_o neighbour table hits' /\
@@ -351,7 +359,7 @@ Qed.
 Example C17_ex_unique_crossing :
   (forall a b, In a [mkU 0 900 100 200 1 900 100; mkU 1 900 100 200 0 900 100; mkU 2 50 300 250 0 50 300] ->
                In b [mkU 0 900 100 200 1 900 100; mkU 1 900 100 200 0 900 100; mkU 2 50 300 250 0 50 300] ->
-               red_key 1000 a = red_key 1000 b -> a = b) /\
+               red_key5 1000 a = red_key5 1000 b -> a = b) /\
   map uid (unique_crossing 1000 [mkU 0 900 100 200 1 900 100; mkU 1 900 100 200 0 900 100; mkU 2 50 300 250 0 50 300]) = [1; 0; 2].
 Proof.
   split; [|vm_compute; reflexivity].
@@ -419,17 +427,16 @@ Proof.
   split; [exact en_desc_enumerator|vm_compute; reflexivity].
 Qed.
 
-(* filter_results: two overlapping hits of competing profiles with different scores - guard holds, hit 1 (score 120) kept *)
+(* filter_results: two overlapping hits of competing profiles with different scores - hit 1 (score 120) kept *)
 Example C17_ex_filter_results :
   C13.Model.fwf [w_f1; C13.Model.mkFH 1 1 10 200 120 0] = true /\
-  C13.Model.distinct_scores [w_f1; C13.Model.mkFH 1 1 10 200 120 0] = true /\
   filter_gene_o (fun i => 1 - i) [0; 1] [w_f1; C13.Model.mkFH 1 1 10 200 120 0] [w_f1; C13.Model.mkFH 1 1 10 200 120 0] = Ok ([1], [1]).
 Proof. repeat split; vm_compute; reflexivity. Qed.
 (* annotate: rule "r" with one domain, rule "s" with none *)
 Example C17_ex_annotate :
   annotate_core [([114], [[97]; [97]]); ([115], [])] = [([97], [114])].
 Proof. vm_compute. reflexivity. Qed.
-(* terpene: different starts, guard holds, both hits complete *)
+(* terpene: different starts, both hits complete *)
 Example C17_ex_terpene :
   terpene_filter_o [(1, 30, 0); (1, 50, 0)] [(0, C13.Model.mkHit 1 9 60 1 20); (0, w_t1)]
   = Ok [(0, [w_t1; C13.Model.mkHit 1 9 60 1 20])].
